@@ -253,6 +253,13 @@ def set_contract(level, wcfg="B"):
             out.append(("C02/exc-frame/no-watcher-invoked", z3.BoolVal(len(trace) == 0 and not st.ghost.get("flushes"))))
             out.append(("C02/exc-frame/dispatcher-state-unchanged", z3.And(W.bw(st) == W.bw0.t, W.tr(st) == W.tr0.t)))
             out.append(("C01/raises-only-ValueError-TypeError", z3.BoolVal(oc.cls in ("ValueError", "TypeError"))))
+            # validate-before-store also on raising paths: nothing may be in the store that
+            # `_validate` has not accepted
+            if info["obj"] is not None and store_changed:
+                okv = z3.Or([stored_val == v for v in validated]) if (validated and stored_val is not None) else z3.BoolVal(False)
+                out.append(("C01/stored-instance-value-is-the-validated-value", okv))
+            out.append(("C01/stored-class-default-is-the-validated-value",
+                        z3.Implies(default_changed, z3.Or([default_now == v for v in validated]) if validated else z3.BoolVal(False))))
             return out
         # ---- C01: validate-before-store ----
         if info["obj"] is not None and store_changed:
@@ -270,8 +277,11 @@ def set_contract(level, wcfg="B"):
             old_t = info["old"].t if info["with_old"] else T["default"]
             new_t = validated[-1] if validated else val
             forbidden = z3.And(T["constant"] == U.TRUE, init == U.TRUE, z3.Not(new_t == old_t))
-            # a normal return with a *store* is what the guard must exclude
-            if store_changed:
+            # any normal return for another object than the one held is what the guard must exclude
+            # ("every other attempt raises TypeError"), whether or not something was stored
+            # (the early return of a pending asynchronous reference / Undefined never reaches the
+            # guard and stores nothing: links to constants are driven by _sync_refs by design)
+            if validated or store_changed:
                 out.append(("C14/constant-of-initialized-object-not-rebound", z3.Not(forbidden)))
         if not isinstance(oc, Raise):
             stored_something = store_changed if info["obj"] is not None else None
